@@ -39,6 +39,10 @@ type TreeCase struct {
 	Version  string     `json:"version"`  // b1, b2, default (flag omitted => b2)
 	Primary  int        `json:"primary"`  // b1: index of the file whose serving URL is -primaryURL
 	Manifest bool       `json:"manifest"` // b1: pass -manifestURL
+	// DirAs: how the input directory is NAMED on the command line ("" = the relative name D; "slash"
+	// = D/; "dotslash" = ./D; "updown" = D/../D; "abs" = absolute path; "dot" / "dot/" = the tool
+	// runs inside the directory and is given "." / "./"). The bundle must be the same.
+	DirAs string `json:"dir_as,omitempty"`
 }
 
 const f7chars = "#?%:"
@@ -181,6 +185,20 @@ func (t *TreeCase) model(base *url.URL) (map[string]want, bool) {
 
 func (t *TreeCase) genBundleArgs(base *url.URL) []string {
 	a := []string{"-dir", "D", "-baseURL", t.Base, "-o", "out.wbn"}
+	switch t.DirAs {
+	case "slash":
+		a[1] = "D/"
+	case "dotslash":
+		a[1] = "./D"
+	case "updown":
+		a[1] = "D/../D"
+	case "abs":
+		a[1] = "ABS" // replaced by the absolute path at run time
+	case "dot":
+		a[1], a[5] = ".", "../out.wbn"
+	case "dot/":
+		a[1], a[5] = "./", "../out.wbn"
+	}
 	if t.Version != "default" {
 		a = append(a, "-version", t.Version)
 	}
@@ -281,7 +299,17 @@ func checkTree(r *vh.R, t *TreeCase, tmp string) (*bundle.Bundle, bool) {
 	}
 	ctx := "input files " + strings.Join(names, ", ") + "; base URL " + t.Base
 
-	g := runTool(tmp, nil, "gen-bundle", t.genBundleArgs(base)...)
+	gargs, gdir := t.genBundleArgs(base), tmp
+	if gargs[1] == "ABS" {
+		gargs[1] = filepath.Join(tmp, "D")
+	}
+	if strings.HasPrefix(t.DirAs, "dot") && t.DirAs != "dotslash" {
+		gdir = filepath.Join(tmp, "D")
+	}
+	if t.DirAs != "" {
+		r.Class("dir-named-" + t.DirAs)
+	}
+	g := runTool(gdir, nil, "gen-bundle", gargs...)
 	if g.exit != 0 {
 		failTool(r, "gen-bundle-failed", "gen-bundle refused a directory inside the documented domain", g, ctx)
 		return nil, false
@@ -390,7 +418,7 @@ var (
 	plainPieces = []string{"a", "b", "file", "x1", "Z", "data", "07", "readme", "img", "Q"}
 	metaPieces  = []string{" ", "#", "?", "%41", "%", ":", "&", "+", "=", ";", "é", "日本", "-", "_", ".", "@", ",", "'", "~", "!", " ", "é", "日本"}
 	exts        = []string{"", "", ".txt", ".html", ".js", ".css", ".bin", ".json"}
-	wholeNames  = []string{"index.html", "index.html", "index.html", "c:d.txt", "h#frag.txt", "a?b", "p%41", "100%", "a b.txt", "-rf", "--help", "日本語.txt", "é.html",
+	wholeNames  = []string{"index.html", "index.html", "index.html", ".htaccess", ".well-known", ".hidden.txt", "..data", "c:d.txt", "h#frag.txt", "a?b", "p%41", "100%", "a b.txt", "-rf", "--help", "日本語.txt", "é.html",
 		"INDEX.HTML", "index.htm", "index.html.bak", "xindex.html", "a&b=c;d+e.txt", " lead", "trail ", "..."}
 	baseURLs = []string{"https://a.example/", "https://a.example/base/", "https://a.example/base", "https://b.example/", "https://c.example/x/y/",
 		"https://a.example", "https://www.a.example/", "https://x.w.example/app/", "https://a.example:8443/", "https://a.example/sp%20ace/",
@@ -458,7 +486,8 @@ func genBody(t *rapid.T, label string) (vh.B, int) {
 
 // genTree draws a directory tree. noF7: never produce '#', '?', '%', ':' in names.
 func genTree(t *rapid.T, noF7 bool, bases []string) TreeCase {
-	c := TreeCase{Base: rapid.SampledFrom(bases).Draw(t, "base"), Version: rapid.SampledFrom([]string{"b1", "b2", "b2", "default"}).Draw(t, "version")}
+	c := TreeCase{Base: rapid.SampledFrom(bases).Draw(t, "base"), Version: rapid.SampledFrom([]string{"b1", "b2", "b2", "default"}).Draw(t, "version"),
+		DirAs: rapid.SampledFrom([]string{"", "", "", "slash", "dotslash", "updown", "abs", "dot", "dot", "dot/"}).Draw(t, "diras")}
 	type dir struct {
 		path []string
 		used map[string]bool
@@ -509,6 +538,13 @@ func fixedTrees() []TreeCase {
 		{Base: "https://a.example/base", Version: "b1", Primary: 0, Manifest: true, Files: []FileSpec{f("p", "main.html"), f("i", "dir one", "index.html"), {Path: []string{"dir one", "bin"}, Body: vh.B{0, 1, 2, 0xff}, Fill: 70000}}},
 		{Base: "https://b.example/base/", Version: "default", Files: []FileSpec{f("x", "-rf"), f("y", "--help"), f("z", "a", "b", "c.txt"), f("", "a", "b", "index.html")}},
 		{Base: "https://c.example/x/y/", Version: "b1", Primary: 0, Files: []FileSpec{f("<p>", "index.html"), f("q", "index.html.bak"), f("r", "xindex.html")}},
+		// names beginning with a dot, the directory named in every way a shell user would
+		{Base: "https://a.example/app/", Version: "b2", DirAs: "dot", Files: []FileSpec{f("h", ".htaccess"), f("w", ".well-known", "assetlinks.json"), f("i", "index.html"), f("d", "..data")}},
+		{Base: "https://a.example/app/", Version: "b2", DirAs: "dot/", Files: []FileSpec{f("h", ".htaccess"), f("w", ".well-known", "assetlinks.json"), f("i", "sub", ".hidden")}},
+		{Base: "https://a.example/app/", Version: "b1", Primary: 0, DirAs: "updown", Files: []FileSpec{f("h", ".htaccess"), f("x", "D")}},
+		{Base: "https://a.example/", Version: "b2", DirAs: "abs", Files: []FileSpec{f("h", ".htaccess"), f("x", "a.txt")}},
+		{Base: "https://a.example/", Version: "b2", DirAs: "slash", Files: []FileSpec{f("h", ".h"), f("x", "a.txt")}},
+		{Base: "https://a.example/", Version: "b2", DirAs: "dotslash", Files: []FileSpec{f("h", ".h"), f("x", "a.txt")}},
 		// URL metacharacters in names (finding F7; skipped under VERIF_C20_SKIP_F7=1)
 		{Base: "https://a.example/base/", Version: "b2", Files: []FileSpec{f("h", "h#frag.txt"), f("q", "a?b"), f("p", "p%41"), f("x", "100%"), f("c", "c:d.txt"), f("n", "sub:dir", "x y#1.txt")}},
 	}
